@@ -345,10 +345,23 @@ Fixpoint fixed_digits (w : nat) (i : N) : list N :=
 
 Definition digit_char (d : N) : N := (48 + d)%N.
 
-Definition name_string (n : name) : list N :=
+(* codec_suffix = path[path.rfind('.'):] when the target path ends with a codec extension [ext]:
+   the tail of the extension from its last dot ('.tar.gz' -> '.gz'); empty for a plain target *)
+Fixpoint suffix_from_last_dot (l : list N) : list N :=
+  match l with
+  | [] => []
+  | c :: r => match suffix_from_last_dot r with
+              | [] => if N.eqb c 46 then l else []
+              | s => s
+              end
+  end.
+
+(* [sfx] = the codec suffix of the target.  Part files carry it; the marker's name is the regenerated
+   [marker_base] ('_SUCCESS'), with the suffix only if the code derives it so ([marker_suffixed], false today) *)
+Definition name_string (sfx : list N) (n : name) : list N :=
   match n with
-  | NPart i => part_prefix ++ map digit_char (fixed_digits part_width (N.of_nat i))
-  | NMarker => [95; 83; 85; 67; 67; 69; 83; 83]%N                (* _SUCCESS *)
+  | NPart i => part_prefix ++ map digit_char (fixed_digits part_width (N.of_nat i)) ++ sfx
+  | NMarker => marker_base ++ (if marker_suffixed then sfx else [])
   | NOther k => [111; 108; 100; 45; digit_char (N.of_nat k)]%N   (* old-k *)
   end.
 
